@@ -399,7 +399,8 @@ func c04r2(c *core.Ctx) {
 				return false
 			}
 			flagAtom := func(at core.Atom, name string) bool {
-				ix, ok := ast.Unparen(at.Expr).(*ast.IndexExpr)
+				// (the test may be written through an accessor of a wrapper type: flags.isSet(id) for flags[id])
+				ix, ok := ast.Unparen(m.Inline(at.Expr)).(*ast.IndexExpr)
 				return ok && at.Truth && fieldKeyOf(m, ix.X) == "storage.isTarget" && aboutEnt(ix.Index, name)
 			}
 			underFlag := func(n ast.Node, name string) bool {
@@ -419,6 +420,11 @@ func c04r2(c *core.Ctx) {
 			core.InspectNoLits(f.Body, func(n ast.Node) bool {
 				if ix, ok := n.(*ast.IndexExpr); ok && fieldKeyOf(m, ix.X) == "storage.isTarget" && aboutEnt(ix.Index, ent) {
 					tested = true
+				}
+				if call, ok := n.(*ast.CallExpr); ok {
+					if ix, ok := ast.Unparen(m.Inline(call)).(*ast.IndexExpr); ok && fieldKeyOf(m, ix.X) == "storage.isTarget" && aboutEnt(ix.Index, ent) {
+						tested = true
+					}
 				}
 				switch x := n.(type) {
 				case *ast.ExprStmt:
@@ -1446,6 +1452,10 @@ func cleanupRole(c *core.Ctx) map[*core.Func]bool {
 				if fieldKeyOf(m, x.X) == "storage.isTarget" {
 					mentions = true
 				}
+			case *ast.CallExpr:
+				if ix, ok := ast.Unparen(m.Inline(x)).(*ast.IndexExpr); ok && fieldKeyOf(m, ix.X) == "storage.isTarget" {
+					mentions = true
+				}
 			case *ast.ExprStmt:
 				if call, ok := x.X.(*ast.CallExpr); ok && len(call.Args) == 1 {
 					if k, cal, _ := m.Callee(call); k == core.CallStatic && cal.Sig != nil && cal.Sig.Results().Len() == 0 {
@@ -1468,7 +1478,7 @@ func cleanupRole(c *core.Ctx) map[*core.Func]bool {
 			spec := core.GuardSpec{
 				Only: f,
 				GuardAtom: func(ff *core.Func, at core.Atom) bool {
-					ix, ok := ast.Unparen(at.Expr).(*ast.IndexExpr)
+					ix, ok := ast.Unparen(m.Inline(at.Expr)).(*ast.IndexExpr)
 					return ok && at.Truth && fieldKeyOf(m, ix.X) == "storage.isTarget"
 				},
 				Needs: func(ff *core.Func, n ast.Node) []core.Witness {
@@ -1586,7 +1596,8 @@ func c04r6(c *core.Ctx) {
 		if f.Recv != "table" || !returnsBool(f) || relationIDsParam(f) == nil {
 			continue
 		}
-		core.InspectNoLits(f.Body, func(x ast.Node) bool {
+		// (function literals included: the loop may be a slices.ContainsFunc with the comparison in its predicate)
+		ast.Inspect(f.Body, func(x ast.Node) bool {
 			be, ok := x.(*ast.BinaryExpr)
 			if !ok || (be.Op != token.NEQ && be.Op != token.EQL) {
 				return true
